@@ -153,7 +153,10 @@ def op_ids(c):
     from ocean_science_utilities.interpolate.geometry import Track
     ds = build_ds(c["ds"])
     tr = Track.from_arrays(arr(c["lat"]), arr(c["lon"]), to_time(c["time"]), "trk")
-    r = interpolate_dataset(ds, tr)
+    kw = {}
+    if c.get("periodic_data"):
+        kw["periodic_data"] = {k: tuple(v) for k, v in c["periodic_data"].items()}
+    r = interpolate_dataset(ds, tr, **kw)
     out = {}
     for name, df in r.items():
         out[name] = {col: ([hx(v) for v in df[col].values] if col != "time" else
